@@ -9,6 +9,7 @@ N2  polarity of two-armed conditionals: an `if`/conditional expression that has 
     (`if not c: A else: B` -> `if c: B else: A`; `if x is not y: A else: B` -> `if x is y: B else: A`; for and/or tests the orientation with
     fewer negated operands is taken, the conjunction on a tie).  One-armed `if`s are left alone.
 N3  return temporaries: `t = E; return t` (adjacent, `t` a plain local not captured by a nested scope) -> `return E`.
+N9  keyword arguments of NumPy calls that spell the documented default (`np.copy(x, order="K")`, `x.astype(t, copy=True)`) are dropped.
 N4  dead constant stores: `name = <constant>` to a local that is never read, deleted or declared global/nonlocal in the function is dropped
     (debug markers and the like); a function body emptied that way keeps a `pass`.
 """
@@ -17,6 +18,22 @@ from __future__ import annotations
 import ast
 import os
 from typing import List
+
+def _clone(n):
+    """structural copy of an AST (sub)tree that does not follow the `_parent` back links the model attaches to nodes"""
+    if isinstance(n, list):
+        return [_clone(x) for x in n]
+    if isinstance(n, ast.AST):
+        new = type(n)()
+        for f in n._fields:
+            if hasattr(n, f):
+                setattr(new, f, _clone(getattr(n, f)))
+        for a in ("lineno", "col_offset", "end_lineno", "end_col_offset"):
+            if hasattr(n, a):
+                setattr(new, a, getattr(n, a))
+        return new
+    return n
+
 
 _FLIP = {ast.Is: ast.IsNot, ast.IsNot: ast.Is, ast.In: ast.NotIn, ast.NotIn: ast.In}
 _NEG_OPS = (ast.IsNot, ast.NotIn)
@@ -214,8 +231,8 @@ class _Lower(ast.NodeTransformer):
                 and (isinstance(node.targets[0], ast.Name) or isinstance(node.targets[0].value, ast.Name)):
             import copy as _copy
             v = node.value
-            a = ast.copy_location(ast.Assign(targets=[_copy.deepcopy(node.targets[0])], value=v.body), node)
-            b = ast.copy_location(ast.Assign(targets=[_copy.deepcopy(node.targets[0])], value=v.orelse), node)
+            a = ast.copy_location(ast.Assign(targets=[_clone(node.targets[0])], value=v.body), node)
+            b = ast.copy_location(ast.Assign(targets=[_clone(node.targets[0])], value=v.orelse), node)
             return ast.copy_location(ast.If(test=v.test, body=[self.visit_Assign(a)], orelse=[self.visit_Assign(b)]), node)
         return node
 
@@ -394,6 +411,368 @@ def _single_use_temps(fn):
     fn.body = block(fn.body)
 
 
+def _pure_test_expr(e: ast.expr) -> bool:
+    for n in ast.walk(e):
+        if isinstance(n, (ast.NamedExpr, ast.Await, ast.Yield, ast.YieldFrom, ast.Lambda)):
+            return False
+        if isinstance(n, ast.Call):
+            f = n.func
+            if isinstance(f, ast.Name) and f.id in ("isinstance", "issubclass", "hasattr", "len", "callable", "type", "all", "any"):
+                continue
+            if isinstance(f, ast.Attribute) and isinstance(f.value, ast.Name) and f.value.id in ("np", "numpy") and f.attr in ("issubdtype", "isscalar", "ndim", "shape"):
+                continue
+            return False
+    return True
+
+
+def _bool_aliases(fn):
+    """N11  boolean aliases of a guard: `b = <pure test expression>` directly followed by an if/elif chain, `b` stored once and read only in the
+    tests of that chain (where nothing but the earlier tests has been evaluated since the definition) -> every read is replaced by the expression."""
+    stores, loads = {}, {}
+    for n in ast.walk(fn):
+        if isinstance(n, ast.Name):
+            d = loads if isinstance(n.ctx, ast.Load) else stores
+            d[n.id] = d.get(n.id, 0) + 1
+    captured = _captured_names(fn) | _scoped_decls(fn)
+
+    def chain_tests(ifst):
+        out = []
+        cur = ifst
+        while isinstance(cur, ast.If):
+            out.append(cur)
+            cur = cur.orelse[0] if len(cur.orelse) == 1 and isinstance(cur.orelse[0], ast.If) else None
+        return out
+
+    def block(stmts):
+        out = []
+        i = 0
+        while i < len(stmts):
+            s = stmts[i]
+            for f in ("body", "orelse", "finalbody"):
+                v = getattr(s, f, None)
+                if isinstance(v, list) and v and isinstance(v[0], ast.stmt) and not isinstance(s, (ast.FunctionDef, ast.AsyncFunctionDef, ast.ClassDef)):
+                    setattr(s, f, block(v))
+            if isinstance(s, ast.Try):
+                for h in s.handlers:
+                    h.body = block(h.body)
+            nxt = stmts[i + 1] if i + 1 < len(stmts) else None
+            if (isinstance(s, ast.Assign) and len(s.targets) == 1 and isinstance(s.targets[0], ast.Name) and isinstance(nxt, ast.If)
+                    and stores.get(s.targets[0].id) == 1 and s.targets[0].id not in captured and _pure_test_expr(s.value)
+                    and isinstance(s.value, (ast.BoolOp, ast.Compare, ast.Call, ast.UnaryOp))):
+                nm = s.targets[0].id
+                links = chain_tests(nxt)
+                in_tests = sum(1 for l in links for x in ast.walk(l.test) if isinstance(x, ast.Name) and x.id == nm)
+                if in_tests and in_tests == loads.get(nm, 0):
+                    import copy as _copy
+
+                    class Sub(ast.NodeTransformer):
+                        def visit_Name(self, node):
+                            if node.id == nm and isinstance(node.ctx, ast.Load):
+                                return _clone(s.value)
+                            return node
+                    for l in links:
+                        l.test = Sub().visit(l.test)
+                    i += 1
+                    continue
+            out.append(s)
+            i += 1
+        return out
+
+    fn.body = block(fn.body)
+
+
+def _unroll_literal_dictcomps(fn):
+    """N12  a dictionary built by a comprehension over a *literal table*:  `t = {k: v for k, v in (("a", a), ("b", b)) if c(v)}`  ->
+    `t = {}` followed by `if c(a): t["a"] = a`, `if c(b): t["b"] = b` (the table's entries are plain names / constants / attribute chains, so
+    evaluating them one at a time instead of all up front changes nothing)."""
+    import copy as _copy
+
+    def unroll(st):
+        if not (isinstance(st, ast.Assign) and len(st.targets) == 1 and isinstance(st.targets[0], ast.Name) and isinstance(st.value, ast.DictComp)):
+            return None
+        dc = st.value
+        if len(dc.generators) != 1 or dc.generators[0].is_async:
+            return None
+        g = dc.generators[0]
+        it = g.iter
+        drop = None
+        if isinstance(it, ast.Name) and tables.get(it.id) is not None:
+            drop = tables[it.id]
+            it = drop.value
+        if not isinstance(it, (ast.Tuple, ast.List)):
+            return None
+        tgt = g.target
+        names = [tgt.id] if isinstance(tgt, ast.Name) else ([e.id for e in tgt.elts] if isinstance(tgt, ast.Tuple) and all(isinstance(e, ast.Name) for e in tgt.elts) else None)
+        if names is None:
+            return None
+        rows = []
+        for el in it.elts:
+            vals = [el] if isinstance(tgt, ast.Name) else (list(el.elts) if isinstance(el, (ast.Tuple, ast.List)) and len(el.elts) == len(names) else None)
+            if vals is None or not all(_simple(v) for v in vals):
+                return None
+            rows.append(dict(zip(names, vals)))
+        tname = st.targets[0].id
+        if tname in names or any(isinstance(x, ast.Name) and x.id == tname for x in ast.walk(dc)):
+            return None
+        out = [ast.copy_location(ast.Assign(targets=[ast.Name(id=tname, ctx=ast.Store())], value=ast.Dict(keys=[], values=[])), st)]
+        if drop is not None:
+            dropped.add(id(drop))
+        for row in rows:
+            class Sub(ast.NodeTransformer):
+                def visit_Name(self, node):
+                    if node.id in row and isinstance(node.ctx, ast.Load):
+                        return _clone(row[node.id])
+                    return node
+            key = Sub().visit(_clone(dc.key))
+            val = Sub().visit(_clone(dc.value))
+            store = ast.copy_location(ast.Assign(targets=[ast.Subscript(value=ast.Name(id=tname, ctx=ast.Load()), slice=key, ctx=ast.Store())], value=val), st)
+            conds = [Sub().visit(_clone(c)) for c in g.ifs]
+            if conds:
+                test = conds[0] if len(conds) == 1 else ast.BoolOp(op=ast.And(), values=conds)
+                out.append(ast.copy_location(ast.If(test=test, body=[store], orelse=[]), st))
+            else:
+                out.append(store)
+        return out
+
+    def block(stmts):
+        out = []
+        for s in stmts:
+            for f in ("body", "orelse", "finalbody"):
+                v = getattr(s, f, None)
+                if isinstance(v, list) and v and isinstance(v[0], ast.stmt) and not isinstance(s, (ast.FunctionDef, ast.AsyncFunctionDef, ast.ClassDef)):
+                    setattr(s, f, block(v))
+            if isinstance(s, ast.Try):
+                for h in s.handlers:
+                    h.body = block(h.body)
+            r = unroll(s)
+            if r is not None:
+                out.extend(r)
+            else:
+                out.append(s)
+        return out
+
+    def purge(stmts):
+        out = []
+        for s in stmts:
+            if id(s) in dropped:
+                continue
+            for f in ("body", "orelse", "finalbody"):
+                v = getattr(s, f, None)
+                if isinstance(v, list) and v and isinstance(v[0], ast.stmt) and not isinstance(s, (ast.FunctionDef, ast.AsyncFunctionDef, ast.ClassDef)):
+                    setattr(s, f, purge(v) or [ast.copy_location(ast.Pass(), s)])
+            if isinstance(s, ast.Try):
+                for h in s.handlers:
+                    h.body = purge(h.body) or [ast.copy_location(ast.Pass(), h)]
+            out.append(s)
+        return out
+
+    # a literal table bound to a local that is stored once and read once (by the comprehension)
+    loads, stores = {}, {}
+    for n in ast.walk(fn):
+        if isinstance(n, ast.Name):
+            d = loads if isinstance(n.ctx, ast.Load) else stores
+            d[n.id] = d.get(n.id, 0) + 1
+    tables = {}
+    for n in ast.walk(fn):
+        if isinstance(n, ast.Assign) and len(n.targets) == 1 and isinstance(n.targets[0], ast.Name) and isinstance(n.value, (ast.Tuple, ast.List)) \
+                and stores.get(n.targets[0].id) == 1 and loads.get(n.targets[0].id) == 1:
+            tables[n.targets[0].id] = n
+    dropped: set = set()
+    fn.body = block(fn.body)
+    if dropped:
+        fn.body = purge(fn.body)
+
+
+def _function_aliases(fn):
+    """N16  a local bound once to a dotted name rooted at a module alias (`writer = np.savez`) and only ever *called* (or passed on) afterwards:
+    every read is replaced by the dotted name (looking the attribute up later instead of earlier yields the same object)."""
+    stores, loads = {}, {}
+    for n in ast.walk(fn):
+        if isinstance(n, ast.Name):
+            d = loads if isinstance(n.ctx, ast.Load) else stores
+            d[n.id] = d.get(n.id, 0) + 1
+    captured = _captured_names(fn) | _scoped_decls(fn)
+    params = {a.arg for a in fn.args.posonlyargs + fn.args.args + fn.args.kwonlyargs}
+    alias = {}
+    defs = {}
+    for n in ast.walk(fn):
+        if isinstance(n, ast.Assign) and len(n.targets) == 1 and isinstance(n.targets[0], ast.Name) and isinstance(n.value, ast.Attribute):
+            root = n.value
+            while isinstance(root, ast.Attribute):
+                root = root.value
+            nm = n.targets[0].id
+            if isinstance(root, ast.Name) and root.id in ("np", "numpy") and stores.get(nm) == 1 and nm not in captured and nm not in params and loads.get(nm, 0) >= 1:
+                alias[nm] = n.value
+                defs[id(n)] = True
+    if not alias:
+        return
+    import copy as _copy
+
+    class Sub(ast.NodeTransformer):
+        def visit_Name(self, node):
+            if isinstance(node.ctx, ast.Load) and node.id in alias:
+                return ast.copy_location(_clone(alias[node.id]), node)
+            return node
+
+    def block(stmts):
+        out = []
+        for s in stmts:
+            if id(s) in defs:
+                continue
+            for f in ("body", "orelse", "finalbody"):
+                v = getattr(s, f, None)
+                if isinstance(v, list) and v and isinstance(v[0], ast.stmt) and not isinstance(s, (ast.FunctionDef, ast.AsyncFunctionDef, ast.ClassDef)):
+                    setattr(s, f, block(v) or [ast.copy_location(ast.Pass(), s)])
+            if isinstance(s, ast.Try):
+                for h in s.handlers:
+                    h.body = block(h.body) or [ast.copy_location(ast.Pass(), h)]
+            out.append(s)
+        return out
+    fn.body = block(fn.body) or [ast.copy_location(ast.Pass(), fn)]
+    fn.body = [Sub().visit(b) for b in fn.body]
+
+
+def _loops_to_comprehensions(fn):
+    """N18  the accumulate-by-append loop:  `acc = []` directly followed by `for v in it: [if c:] acc.append(E)` (nothing else in the loop, `acc`
+    mentioned nowhere in it, c or E)  ->  `acc = [E for v in it if c]`; and when the next statement is `t = tuple(acc)` / `list(acc)` and `acc` is
+    used nowhere else  ->  `t = tuple(E for v in it if c)`."""
+    uses = {}
+    for n in ast.walk(fn):
+        if isinstance(n, ast.Name):
+            uses[n.id] = uses.get(n.id, 0) + 1
+
+    def mentions(e, nm):
+        return any(isinstance(x, ast.Name) and x.id == nm for x in ast.walk(e))
+
+    def block(stmts):
+        for s in stmts:
+            for f in ("body", "orelse", "finalbody"):
+                v = getattr(s, f, None)
+                if isinstance(v, list) and v and isinstance(v[0], ast.stmt) and not isinstance(s, (ast.FunctionDef, ast.AsyncFunctionDef, ast.ClassDef)):
+                    setattr(s, f, block(v))
+            if isinstance(s, ast.Try):
+                for h in s.handlers:
+                    h.body = block(h.body)
+        out = []
+        i = 0
+        while i < len(stmts):
+            s = stmts[i]
+            nxt = stmts[i + 1] if i + 1 < len(stmts) else None
+            done = False
+            if (isinstance(s, ast.Assign) and len(s.targets) == 1 and isinstance(s.targets[0], ast.Name)
+                    and ((isinstance(s.value, ast.List) and not s.value.elts) or (isinstance(s.value, ast.Call) and isinstance(s.value.func, ast.Name)
+                                                                                     and s.value.func.id == "list" and not s.value.args and not s.value.keywords))
+                    and isinstance(nxt, ast.For) and not nxt.orelse and len(nxt.body) == 1):
+                acc = s.targets[0].id
+                inner = nxt.body[0]
+                conds = []
+                while isinstance(inner, ast.If) and not inner.orelse and len(inner.body) == 1:
+                    conds.append(inner.test)
+                    inner = inner.body[0]
+                if (isinstance(inner, ast.Expr) and isinstance(inner.value, ast.Call) and isinstance(inner.value.func, ast.Attribute)
+                        and inner.value.func.attr == "append" and isinstance(inner.value.func.value, ast.Name) and inner.value.func.value.id == acc
+                        and len(inner.value.args) == 1 and not inner.value.keywords
+                        and not mentions(inner.value.args[0], acc) and not mentions(nxt.iter, acc) and not any(mentions(c, acc) for c in conds)
+                        and not any(isinstance(x, (ast.Yield, ast.YieldFrom, ast.Await, ast.NamedExpr)) for x in ast.walk(nxt))):
+                    gen = ast.comprehension(target=nxt.target, iter=nxt.iter, ifs=conds, is_async=0)
+                    aft = stmts[i + 2] if i + 2 < len(stmts) else None
+                    if (isinstance(aft, ast.Assign) and len(aft.targets) == 1 and isinstance(aft.value, ast.Call) and isinstance(aft.value.func, ast.Name)
+                            and aft.value.func.id in ("tuple", "list") and len(aft.value.args) == 1 and not aft.value.keywords
+                            and isinstance(aft.value.args[0], ast.Name) and aft.value.args[0].id == acc and uses.get(acc, 0) == 3):
+                        if aft.value.func.id == "tuple":
+                            aft.value.args[0] = ast.copy_location(ast.GeneratorExp(elt=inner.value.args[0], generators=[gen]), s)
+                        else:
+                            aft.value = ast.copy_location(ast.ListComp(elt=inner.value.args[0], generators=[gen]), s)
+                        out.append(aft)
+                        i += 3
+                        done = True
+                    else:
+                        s.value = ast.copy_location(ast.ListComp(elt=inner.value.args[0], generators=[gen]), s)
+                        out.append(s)
+                        i += 2
+                        done = True
+            if not done:
+                out.append(s)
+                i += 1
+        return out
+
+    fn.body = block(fn.body)
+
+
+def _leftmost_walrus(test: ast.expr):
+    """(NamedExpr node, setter) if an assignment expression is the very first thing the test evaluates"""
+    if isinstance(test, ast.NamedExpr):
+        return test, None
+    if isinstance(test, ast.Compare) and isinstance(test.left, ast.NamedExpr):
+        return test.left, lambda v: setattr(test, "left", v)
+    if isinstance(test, ast.UnaryOp) and isinstance(test.op, ast.Not):
+        r = _leftmost_walrus(test.operand)
+        if r is not None:
+            w, st = r
+            return w, (st if st is not None else (lambda v: setattr(test, "operand", v)))
+    if isinstance(test, ast.BoolOp):
+        r = _leftmost_walrus(test.values[0])
+        if r is not None:
+            w, st = r
+            return w, (st if st is not None else (lambda v: test.values.__setitem__(0, v)))
+    if isinstance(test, ast.Call) and isinstance(test.func, ast.Name) and test.args and isinstance(test.args[0], ast.NamedExpr):
+        return test.args[0], lambda v: test.args.__setitem__(0, v)
+    return None
+
+
+class _HoistWalrus(ast.NodeTransformer):
+    """N10  `if (t := E) ...:` -> `t = E; if t ...:` when the assignment expression is the first thing the test evaluates (same for a lowered
+    conditional expression); `while` tests are left alone (re-evaluated per iteration)."""
+
+    def _block(self, stmts):
+        out = []
+        for s in stmts:
+            s = self.visit(s)
+            if isinstance(s, ast.If):
+                while True:
+                    r = _leftmost_walrus(s.test)
+                    if r is None or not isinstance(r[0].target, ast.Name):
+                        break
+                    w, setter = r
+                    out.append(ast.copy_location(ast.Assign(targets=[ast.Name(id=w.target.id, ctx=ast.Store())], value=w.value), s))
+                    name = ast.copy_location(ast.Name(id=w.target.id, ctx=ast.Load()), w)
+                    if setter is None:
+                        s.test = name
+                    else:
+                        setter(name)
+            out.append(s)
+        return out
+
+    def generic_visit(self, node):
+        super().generic_visit(node)
+        for f in ("body", "orelse", "finalbody"):
+            v = getattr(node, f, None)
+            if isinstance(v, list) and v and isinstance(v[0], ast.stmt):
+                setattr(node, f, self._block_noreview(v))
+        if isinstance(node, ast.Try):
+            for h in node.handlers:
+                h.body = self._block_noreview(h.body)
+        return node
+
+    def _block_noreview(self, stmts):
+        out = []
+        for s in stmts:
+            if isinstance(s, ast.If):
+                while True:
+                    r = _leftmost_walrus(s.test)
+                    if r is None or not isinstance(r[0].target, ast.Name):
+                        break
+                    w, setter = r
+                    out.append(ast.copy_location(ast.Assign(targets=[ast.Name(id=w.target.id, ctx=ast.Store())], value=w.value), s))
+                    name = ast.copy_location(ast.Name(id=w.target.id, ctx=ast.Load()), w)
+                    if setter is None:
+                        s.test = name
+                    else:
+                        setter(name)
+            out.append(s)
+        return out
+
+
 class _Tidy(ast.NodeTransformer):
     """N8  no-op statements left behind by the inliner / by refactorings: `x = x` on a plain name is dropped; a conditional whose taken arm is
     empty is turned round (`if c: pass / else: B` -> `if not c: B`); a conditional with nothing in either arm keeps its test as an expression
@@ -401,16 +780,17 @@ class _Tidy(ast.NodeTransformer):
 
     def _block(self, stmts):
         out = []
-        for s in stmts:
-            s = self.visit(s)
-            if s is None:
+        for s0 in stmts:
+            r = self.visit(s0)
+            if r is None:
                 continue
-            if isinstance(s, ast.Assign) and len(s.targets) == 1 and isinstance(s.targets[0], ast.Name) and isinstance(s.value, ast.Name) \
-                    and s.targets[0].id == s.value.id:
-                continue
-            if isinstance(s, ast.Pass) and len(stmts) > 1:
-                continue
-            out.append(s)
+            for s in (r if isinstance(r, list) else [r]):
+                if isinstance(s, ast.Assign) and len(s.targets) == 1 and isinstance(s.targets[0], ast.Name) and isinstance(s.value, ast.Name) \
+                        and s.targets[0].id == s.value.id:
+                    continue
+                if isinstance(s, ast.Pass) and len(stmts) > 1:
+                    continue
+                out.append(s)
         return out
 
     def generic_visit(self, node):
@@ -426,8 +806,25 @@ class _Tidy(ast.NodeTransformer):
                 h.body = self._block(h.body) or [ast.copy_location(ast.Pass(), h)]
         return node
 
+    def visit_IfExp(self, node):
+        self.generic_visit(node)
+        if isinstance(node.test, ast.Constant):
+            return node.body if node.test.value else node.orelse  # N15
+        return node
+
     def visit_If(self, node):
         self.generic_visit(node)
+        # N17  `if not c: raise AssertionError(msg)` is the statement `assert c, msg`
+        if not node.orelse and len(node.body) == 1 and isinstance(node.body[0], ast.Raise) and node.body[0].cause is None:
+            e = node.body[0].exc
+            name = e.func if isinstance(e, ast.Call) else e
+            if isinstance(name, ast.Name) and name.id == "AssertionError" and (not isinstance(e, ast.Call) or (len(e.args) <= 1 and not e.keywords)):
+                msg = e.args[0] if isinstance(e, ast.Call) and e.args else None
+                return ast.copy_location(ast.Assert(test=_negate(_test(node.test)), msg=msg), node)
+        if isinstance(node.test, ast.Constant):
+            # N15  a test that is a literal constant (after default specialisation): only the taken arm remains
+            arm = node.body if node.test.value else node.orelse
+            return list(arm) if arm else None
         empty = lambda b: all(isinstance(x, ast.Pass) for x in b)
         if empty(node.body) and node.orelse and not empty(node.orelse):
             node.test = _negate(_test(node.test))
@@ -442,29 +839,95 @@ class _Tidy(ast.NodeTransformer):
         return node
 
 
+# N9: keyword arguments of NumPy calls that spell the documented default (numpy 1.2x / 2.x)
+_NP_DEFAULTS = {
+    "copy": {"order": "K", "subok": False},
+    "array": {"copy": True, "order": "K", "subok": False, "ndmin": 0, "dtype": None},
+    "asarray": {"dtype": None, "order": None},
+    "ascontiguousarray": {"dtype": None},
+    "zeros_like": {"dtype": None, "order": "K", "subok": True, "shape": None},
+    "ones_like": {"dtype": None, "order": "K", "subok": True, "shape": None},
+    "empty_like": {"dtype": None, "order": "K", "subok": True, "shape": None},
+    "full_like": {"dtype": None, "order": "K", "subok": True, "shape": None},
+}
+_METHOD_DEFAULTS = {
+    "astype": {"order": "K", "casting": "unsafe", "subok": True, "copy": True},
+}
+
+
+def _uses_np(tree) -> bool:
+    return any(isinstance(n, ast.Name) and n.id == "np" for n in ast.walk(tree))
+
+
+class _DropDefaults(ast.NodeTransformer):
+    """N9 (defaults) and N14 (equivalent NumPy / builtin spellings): `E.copy(order="K")` -> `np.copy(E)` (only an ndarray's copy takes order=; the
+    two are the same function) when the tree uses the `np` alias; `list(<generator expression>)` -> the list comprehension."""
+
+    def __init__(self, has_np=True):
+        self.has_np = has_np
+
+    def visit_Call(self, node):
+        self.generic_visit(node)
+        f = node.func
+        if isinstance(f, ast.Name) and f.id == "list" and len(node.args) == 1 and not node.keywords and isinstance(node.args[0], ast.GeneratorExp):
+            g = node.args[0]
+            return ast.copy_location(ast.ListComp(elt=g.elt, generators=g.generators), node)
+        if self.has_np and isinstance(f, ast.Attribute) and f.attr == "copy" and not (isinstance(f.value, ast.Name) and f.value.id in ("np", "numpy")):
+            order = None
+            if len(node.args) == 1 and not node.keywords and isinstance(node.args[0], ast.Constant):
+                order = node.args[0].value
+            elif not node.args and len(node.keywords) == 1 and node.keywords[0].arg == "order" and isinstance(node.keywords[0].value, ast.Constant):
+                order = node.keywords[0].value.value
+            if order == "K":
+                return ast.copy_location(ast.Call(func=ast.Attribute(value=ast.Name(id="np", ctx=ast.Load()), attr="copy", ctx=ast.Load()),
+                                                  args=[f.value], keywords=[]), node)
+        table = None
+        if isinstance(f, ast.Attribute) and isinstance(f.value, ast.Name) and f.value.id in ("np", "numpy"):
+            table = _NP_DEFAULTS.get(f.attr)
+        elif isinstance(f, ast.Attribute) and not (isinstance(f.value, ast.Name) and f.value.id in ("np", "numpy", "self", "cls")):
+            table = _METHOD_DEFAULTS.get(f.attr)
+        if table:
+            node.keywords = [k for k in node.keywords if not (k.arg in table and isinstance(k.value, ast.Constant)
+                                                              and type(k.value.value) is type(table[k.arg]) and k.value.value == table[k.arg])]
+        return node
+
+
 def renormalise_function(fn: ast.AST):
-    """re-establish the normal form on one function after its body was rewritten (helper inlining)"""
+    """re-establish the normal form on one function after its body was rewritten (helper inlining, default specialisation)"""
+    _DropDefaults(_uses_np(fn)).visit(fn)
     _Tidy().visit(fn)
     _Normal().visit(fn)
     _Lower().visit(fn)
+    _HoistWalrus().visit(fn)
     for n in ast.walk(fn):
         if isinstance(n, (ast.FunctionDef, ast.AsyncFunctionDef)):
+            _loops_to_comprehensions(n)
+            _unroll_literal_dictcomps(n)
             _dead_constant_stores(n)
             _return_temps(n)
             if os.environ.get("SA_NO_N7") != "1":
                 _single_use_temps(n)
+            _bool_aliases(n)
+            _function_aliases(n)
+    _Normal().visit(fn)
     ast.fix_missing_locations(fn)
 
 
 def normalise(tree: ast.AST) -> ast.AST:
+    tree = _DropDefaults(_uses_np(tree)).visit(tree)
     tree = _Tidy().visit(tree)
     tree = _Normal().visit(tree)
     tree = _Lower().visit(tree)
+    tree = _HoistWalrus().visit(tree)
     for n in ast.walk(tree):
         if isinstance(n, (ast.FunctionDef, ast.AsyncFunctionDef)):
+            _loops_to_comprehensions(n)
+            _unroll_literal_dictcomps(n)
             _dead_constant_stores(n)
             _return_temps(n)
             if os.environ.get("SA_NO_N7") != "1":
                 _single_use_temps(n)
+            _bool_aliases(n)
+            _function_aliases(n)
     ast.fix_missing_locations(tree)
     return tree
